@@ -96,6 +96,39 @@ def run(tier, rep):
                 f["name"] = d[0]
                 f["why"] = d[1] if len(d) > 1 else ""
             rep.reject(v[1], f, {**de.replay_of(r, meta, v), "ops": [(o["name"], o["raised"]) for o in r["ops"]]})
+    # (B') a FAILED operation first, then the assignment: a message whose payload is too long to be
+    #      framed (>= 65536 bytes: only the constructor can build it) - serialize() fails, and the
+    #      message must be as frozen afterwards as before
+    from pyrtcm import RTCMMessage as _RM
+    from pyrtcm.exceptions import RTCMMessageError as _RME
+
+    for mid, size in ((2000, 65536), (1005, 70000), (4095, 65537)):
+        body = bytes([mid >> 4, (mid & 0xF) << 4]) + bytes((i * 7 + mid) & 0xFF for i in range(size - 2))
+        try:
+            big_msg = _RM(payload=body)
+        except Exception:  # pylint: disable=broad-except
+            continue        # (a library that refuses such a payload has nothing to keep frozen)
+        before = (bytes(big_msg.payload), str(big_msg.identity), str(big_msg)[:200])
+        for attempt in range(2):
+            try:
+                big_msg.serialize()
+            except Exception:  # pylint: disable=broad-except
+                pass
+            for name, value in (("DF002", 9), ("_payload", b"xx"), ("brand_new", 1), ("_immutable", False), ("DF003", 0)):
+                rep.case(digest(["oversize", mid, size, attempt, name]))
+                try:
+                    setattr(big_msg, name, value)
+                    outcome = "accepted"
+                except _RME:
+                    outcome = None
+                except Exception as err:  # pylint: disable=broad-except
+                    outcome = "raised " + type(err).__name__
+                after = (bytes(big_msg.payload), str(big_msg.identity), str(big_msg)[:200])
+                if outcome or after != before:
+                    rep.reject("Frozen", {"engine": "message", "ident": str(mid), "name": name, "why": "after a failed serialize()"},
+                               {"payload_len": size, "message_number": mid, "after_failed_serialize": True, "name": name,
+                                "outcome": outcome or "state changed"})
+                    break
     # (C) attacks on finished messages WHILE other threads are inside a constructor
     #     (Lifecycle.tla: SetAttr(o1) is refused also when phase[o2] = "building")
     import sys
